@@ -39,7 +39,7 @@ var c18Contents = []string{"all: true\n", "# just a comment\n", " ", "\n", "garb
 func (c18) Generate(c *Ctx) []any {
 	var out []any
 	// exhaustive: initial state × target
-	for _, st := range []string{"absent", "empty", "content", "dir", "noparent"} {
+	for _, st := range []string{"absent", "empty", "content", "same", "dir", "noparent"} {
 		for _, tg := range []string{"", "custom.yml", "sub/cfg.yaml"} {
 			in := c18Input{State: st, Target: tg, Pkg: "example.com/m/foo", Content: "all: true\n", Follow: st == "absent"}
 			if st == "noparent" {
@@ -53,7 +53,7 @@ func (c18) Generate(c *Ctx) []any {
 	}
 	n := c.Budget(40, 600)
 	for i := 0; i < n; i++ {
-		in := c18Input{State: pick(c.Rng, []string{"absent", "absent", "empty", "content", "dir"}), Target: pick(c.Rng, []string{"", "custom.yml", "sub/cfg.yaml", ".mockery.yaml"}),
+		in := c18Input{State: pick(c.Rng, []string{"absent", "absent", "empty", "content", "same", "dir"}), Target: pick(c.Rng, []string{"", "custom.yml", "sub/cfg.yaml", ".mockery.yaml"}),
 			Pkg: pick(c.Rng, c18Pkgs), Content: pick(c.Rng, c18Contents)}
 		if c.Rng.Intn(3) == 0 {
 			in.Pkg = pick(c.Rng, c18Pkgs) + pick(c.Rng, []string{"/", ":", " #", "|"}) + pick(c.Rng, c18Pkgs)
@@ -96,6 +96,23 @@ func (c18) Run(c *Ctx, raw json.RawMessage) Case {
 		os.WriteFile(tpath, []byte(in.Content), 0o644)
 	case "dir":
 		os.MkdirAll(tpath, 0o755)
+	case "same":
+		// the target already holds exactly what init would write for this package
+		scratch, _ := os.MkdirTemp(c.Work, "c18s-")
+		writeFiles(scratch, files)
+		a0 := []string{"init"}
+		if in.Target != "" {
+			os.MkdirAll(filepath.Dir(filepath.Join(scratch, target)), 0o755)
+			a0 = append(a0, "--config", in.Target)
+		}
+		c.runMockery(scratch, append(a0, "--", in.Pkg), nil)
+		b, err := os.ReadFile(filepath.Join(scratch, target))
+		os.RemoveAll(scratch)
+		if err != nil {
+			b = []byte("packages: {}\n")
+		}
+		os.MkdirAll(filepath.Dir(tpath), 0o755)
+		os.WriteFile(tpath, b, 0o644)
 	}
 	before := treeHashes(dir)
 	args := []string{"init"}
